@@ -96,6 +96,33 @@ def gen_cases(rng, tier):
         else:
             ops = [0, f2b(ya), f2b(x0), 3, f2b(yb), f2b(far), f2b(yc), f2b(far), f2b(yd), f2b(x0), 4]
         cases.append(("fill_px", [i % 2, 0, 0, w, h, 0, w, 750, 0] + list(IDENT) + ops))
+    # zero-length sub-paths (dots) with round / square caps, alone and next to other contours, under scaled draw calls: the dot is
+    # width x scale across, whatever the resolution scale the stroker is given
+    for i in range(60 if tier == "quick" else 600):
+        w, h = 120, 120
+        scx = rng.choice([1, 2, 2, 3])       # index into [1, 2, 4, 0.5]
+        scv = [1.0, 2.0, 4.0, 0.5][scx]
+        lim = 100.0 / scv
+        p = (round(rng.uniform(0.3, 0.7) * lim, 1), round(rng.uniform(0.3, 0.7) * lim, 1))
+        ops = [0, f2b(p[0]), f2b(p[1])] + ([1, f2b(p[0]), f2b(p[1])] if i % 2 == 0 else [4])
+        if i % 3 == 0:
+            q = (round(rng.uniform(0.2, 0.8) * lim, 1), round(rng.uniform(0.2, 0.8) * lim, 1))
+            ops += [0, f2b(q[0]), f2b(q[1]), 1, f2b(q[0] + 5.0 / scv), f2b(q[1])]
+        width = rng.choice([3.0, 6.0, 10.0]) / scv * rng.choice([1.0, 2.0])
+        cases.append(("stroke_fp", [int(width * 1000), 4000, rng.randrange(4), rng.choice([1, 2]), (i % 2) + 2 * scx, w, h] + ops))
+    # fills whose right (bottom) bound ends a fraction past the pixmap: between width + 0.45 and width + 0.55 the conservative
+    # rounding decides whether the edges are clipped; a wrong decision writes past the end of the row
+    for i in range(48 if tier == "quick" else 480):
+        w, h = rng.choice([(20, 12), (33, 9), (24, 24)])
+        fr = rng.choice([0.45, 0.47, 0.49, 0.5, 0.51, 0.52, 0.523, 0.53, 0.55, 0.25, 0.75])
+        x0 = rng.uniform(3, w - 6)
+        y0, y1 = rng.uniform(1, h / 2 - 1), rng.uniform(h / 2, h - 2)
+        if i % 4 == 3:   # the same at the bottom
+            pts = [(x0, y0), (w - 3.0, y0), (w - 3.0, h + fr), (x0, h + fr)]
+        else:
+            pts = [(x0, y0), (w + fr, y0 + rng.choice([0.0, 0.7])), (w + fr, y1), (x0, y1)]
+        cases.append(("fill_px", [i % 2, 0, 0, w, h, 0, w, 125, 0] + list(IDENT) + [0] + [v for q_ in pts[:1] for v in (f2b(q_[0]), f2b(q_[1]))]
+                      + [v for q_ in pts[1:] for v in (1, f2b(q_[0]), f2b(q_[1]))] + [4]))
     allfills = [c for c in _c02.gen_cases(rng, tier) if c[0] == "fill_px"]
     fills = [c for c in allfills if c[1][3] <= 200]
     cases += fills[:450 if tier == "quick" else 6000]
